@@ -19,6 +19,7 @@ dict_model(M + 'int_cache', -10, 257,
 class _:
     """= int.bit_length for n >= 0 (uses bisect and math.log: outside the subset)."""
     assumed = True
+    search = 'bitcount_inputs'
     shapes = dict(n='int')
     result = 'int'
 
